@@ -17,6 +17,9 @@ func registerIntrinsics(M map[string]Model) {
 	nondet := func(kind string, w int) Model {
 		return func(m *Machine, fr *Frame, a []Value) Value {
 			name := m.mustGoString(a[0], "nondet name")
+			if m.fixed != nil {
+				return m.ctx.Const(m.nextFixed(name, kind), w)
+			}
 			v := m.fresh("n", w)
 			m.nondets = append(m.nondets, nondetRec{name: name, kind: kind, t: v})
 			return v
@@ -33,6 +36,10 @@ func registerIntrinsics(M map[string]Model) {
 		c := m.ctx
 		b := m.allocObj(types.Typ[types.Uint8], n, "vrt.Bytes "+name)
 		for i := 0; i < n; i++ {
+			if m.fixed != nil {
+				m.rawStore(b, i, c.Const(m.nextFixed(name, "u8"), 8), 1)
+				continue
+			}
 			v := m.fresh("n", 8)
 			m.nondets = append(m.nondets, nondetRec{name: fmt.Sprintf("%s[%d]", name, i), kind: "u8", t: v})
 			m.rawStore(b, i, v, 1)
@@ -52,6 +59,9 @@ func registerIntrinsics(M map[string]Model) {
 		n := int(int64(m.concretize(a[1].(*Term), "Choice arity")))
 		if n <= 0 {
 			m.unsupported("Choice(%d)", n)
+		}
+		if m.fixed != nil {
+			return m.ctx.Const(m.nextFixed(name, "choice")%uint64(n), 64)
 		}
 		d := m.decide(make([]*Term, n))
 		c := m.ctx.Const(uint64(d), 64)
@@ -237,6 +247,22 @@ func registerIntrinsics(M map[string]Model) {
 		m.poolPolicy = m.mustGoString(a[0], "pool policy")
 		return nil
 	})
+	I("Phase", func(m *Machine, fr *Frame, a []Value) Value {
+		m.phase = m.mustGoString(a[0], "phase")
+		return nil
+	})
+	I("Observe", func(m *Machine, fr *Frame, a []Value) Value {
+		name := m.mustGoString(a[0], "observe name")
+		sl := a[1].(Agg)
+		n := int(m.concretize(sl[1].(*Term), "observe len"))
+		bs, ok := m.bytesOf(sl[0].(*Term), n)
+		if !ok {
+			m.observed = append(m.observed, name+"=<symbolic>")
+		} else {
+			m.observed = append(m.observed, fmt.Sprintf("%s=%x", name, bs))
+		}
+		return nil
+	})
 	I("Note", func(m *Machine, fr *Frame, a []Value) Value { return nil })
 	I("MutexHeld", func(m *Machine, fr *Frame, a []Value) Value {
 		p := m.simp(a[0].(*Term))
@@ -338,4 +364,34 @@ func (m *Machine) errMsg(e Agg, depth int) string {
 		return "<" + n.Obj().Name() + ">"
 	}
 	return "<" + dt.String() + ">"
+}
+
+func splitmix(x uint64) uint64 {
+	x += 0x9e3779b97f4a7c15
+	x = (x ^ (x >> 30)) * 0xbf58476d1ce4e5b9
+	x = (x ^ (x >> 27)) * 0x94d049bb133111eb
+	return x ^ (x >> 31)
+}
+
+// nextFixed: concrete mode. With a recorded list the values are replayed in
+// order; with a seed they are a fixed pseudo-random function of the call index
+// (the native vrt package computes the same function).
+func (m *Machine) nextFixed(name, kind string) uint64 {
+	if m.fixedSeed != 0 {
+		v := splitmix(m.fixedSeed + uint64(m.fixedPos)*0x100000001b3)
+		m.fixedPos++
+		if v%4 == 0 {
+			v = v >> 8 % 3 // bias towards small values
+		}
+		return v
+	}
+	if m.fixedPos >= len(m.fixed) {
+		return 0
+	}
+	v := m.fixed[m.fixedPos]
+	m.fixedPos++
+	if v.Kind != kind {
+		m.unsupported("concrete replay divergence at #%d: harness asks %s %q, record has %s %q", m.fixedPos-1, kind, name, v.Kind, v.Name)
+	}
+	return v.Value
 }
